@@ -182,13 +182,14 @@ def scale_factor():
                       "both_agree": L.close(a, b, 1e-9)}, obs={"a": a, "b": b})
 
 
-def frame_classification(rot, min_points, scales, two_objects, sym_points=1, shift=0.0):
+def frame_classification(rot, min_points, scales, two_objects, sym_points=1, shift=0.0, no_objects=False):
     """SensingFrameResult.evaluate_frame + SensingEvaluationManager.crop_pointcloud.
-    `shift`: the whole scene moved along x (objects farther than 100 m: extrapolated scale factors)."""
+    `shift`: the whole scene moved along x (objects farther than 100 m: extrapolated scale factors).
+    `no_objects`: a frame without any annotated object (every point of the area is then a failed non-detection point)."""
     s0, s100 = scales
     vis = choose("visibility", [None, Visibility.FULL, Visibility.MOST, Visibility.PARTIAL, Visibility.NONE,
                                 Visibility.UNAVAILABLE])
-    centers = [(8.0 + shift, 1.0, 0.0), (16.0 + shift, -6.0, 0.0)][: 2 if two_objects else 1]
+    centers = [(8.0 + shift, 1.0, 0.0), (16.0 + shift, -6.0, 0.0)][: 0 if no_objects else (2 if two_objects else 1)]
     objs = [_box(f"g{k}", c, rot if k == 0 else "0", visibility=vis if k == 0 else Visibility.FULL)
             for k, c in enumerate(centers)]
     # symbolic points, plus concrete ones: one well inside the first box, one in the area outside every box
@@ -277,6 +278,7 @@ def obligations(pid, tier):
               if not t or (r == "-23" and sc == (1.0, 1.5))]  # two-object scenes: one rotation (run time)
         # (two symbolic points in a whole-frame scene do not finish within 40 minutes: outside the thorough bound)
     fr += [dict(rot="53", min_points=1, scales=(1.0, 1.6), two_objects=False, sym_points=1, shift=150.0)]
+    fr += [dict(rot="0", min_points=1, scales=(1.0, 1.5), two_objects=False, sym_points=1, no_objects=True)]
     if not quick:
         fr += [dict(rot="-23", min_points=2, scales=(1.5, 1.0), two_objects=True, sym_points=1, shift=150.0)]
     return [
@@ -303,7 +305,7 @@ def meta(pid):
                   "manager/sensing_evaluation_manager.py", "util/math.py"],
         "bounds": {"quick": "box: symbolic centre, exact yaw in {0, 53.1, -22.6 deg}, scale in {1/2, 1, 5/4} (+3/2 x for "
                             "monotonicity), 1 symbolic point, 3 or 4 columns; prisms: triangle, 2 "
-                            "quads (both orientations), pentagon with symbolic offset; frame: 1-2 objects, 1 symbolic + 2 concrete points, "
+                            "quads (both orientations), pentagon with symbolic offset; frame: 0-2 objects, 1 symbolic + 2 concrete points, "
                             "min points 0..2, constant and distance-dependent scale, every visibility level, one scene beyond "
                             "100 m; scale factor itself: symbolic distance in [0, 500] m and symbolic end-point scales",
                    "thorough": "8 orientations (two tilted), 4 scales, 2 symbolic points for one rotation, min points 0..3"},
